@@ -349,6 +349,11 @@ func runUnaryStatus(o *hx.Out, r *hx.Rand, n int) {
 				st = status.FromProto(sp)
 			}
 			retErr = st.Err()
+			wrapped := ""
+			if r.Chance(20) {
+				inner := []error{context.DeadlineExceeded, context.Canceled}[r.Intn(2)]
+				retErr, wrapped = wrapsCtx{st, inner}, inner.Error()
+			}
 			known := map[string]pairT{}
 			var hp, tp []pairT
 			for k := r.Intn(3); k > 0; k-- {
@@ -375,11 +380,22 @@ func runUnaryStatus(o *hx.Out, r *hx.Rand, n int) {
 			hOK := pairsOf(gh, known) == pairsTermSorted(hp)
 			tOK := pairsOf(gt, known) == pairsTermSorted(tp)
 			desc := map[string]interface{}{"transport": t.name, "code": code, "message": msg, "details": nd, "client_code": uint32(got.Code()), "client_message": got.Message(),
-				"headers_ok": hOK, "trailers_ok": tOK}
+				"headers_ok": hOK, "trailers_ok": tOK, "error_also_wraps": wrapped}
 			o.Case("unary_status_"+t.name, fmt.Sprintf("UnaryStatus %s %s %d %d %d %s %s %s %s", hx.B(http), hx.Z(code), cls, nd, uint32(got.Code()), hx.B(msgSame), hx.B(detSame), hx.B(hOK), hx.B(tOK)), desc)
 		}
 	}
 }
+
+// wrapsCtx is an application error with its own gRPC status that also wraps a context error (as an error
+// built with fmt.Errorf("...: %w", ctx.Err()) and a GRPCStatus method would): its own status is what counts
+type wrapsCtx struct {
+	st    *status.Status
+	inner error
+}
+
+func (e wrapsCtx) Error() string              { return e.st.Message() + ": " + e.inner.Error() }
+func (e wrapsCtx) GRPCStatus() *status.Status { return e.st }
+func (e wrapsCtx) Unwrap() error              { return e.inner }
 
 // okCoded is a handler error whose status carries the OK code
 type okCoded struct{ msg string }
@@ -462,6 +478,9 @@ func runStreamStatus(o *hx.Out, r *hx.Rand, n int) {
 					sp.Details = append(sp.Details, a)
 				}
 				herr = status.FromProto(sp).Err()
+				if r.Chance(20) {
+					herr = wrapsCtx{status.FromProto(sp), []error{context.DeadlineExceeded, context.Canceled}[r.Intn(2)]}
+				}
 			}
 			known := map[string]pairT{}
 			var hp, tp []pairT
@@ -515,7 +534,7 @@ func runStreamStatus(o *hx.Out, r *hx.Rand, n int) {
 			hOK := pairsOf(gh, known) == pairsTermSorted(hp)
 			tOK := pairsOf(gt, known) == pairsTermSorted(tp)
 			kid := map[string]int{"SS": 1, "BD": 2, "CS": 3}[kind]
-			desc := map[string]interface{}{"transport": t.name, "kind": kind, "handler_sends": k, "code": code, "message": msg, "details": nd, "ok_coded_error": cls == 6,
+			desc := map[string]interface{}{"transport": t.name, "kind": kind, "handler_sends": k, "code": code, "message": msg, "details": nd, "ok_coded_error": cls == 6, "handler_error_type": fmt.Sprintf("%T", herr),
 				"client_failed": failed, "client_code": uint32(got.Code()), "client_message": got.Message(), "client_messages": gotMsgs, "headers_ok": hOK, "trailers_ok": tOK}
 			o.Case("stream_status_"+t.name, fmt.Sprintf("StreamStatus %s %d %d %s %d %d %s %d %d %s %s %s %s", hx.B(http), kid, k, hx.Z(code), cls, nd, hx.B(failed), uint32(got.Code()), gotMsgs,
 				hx.B(msgSame), hx.B(detSame), hx.B(hOK), hx.B(tOK)), desc)
@@ -542,6 +561,81 @@ func checked(o *hx.Out, kind string, id int, ok bool, desc map[string]interface{
 
 // a unary HTTP reply whose body is cut short must be reported as an error, wherever the cut falls
 func truncatedUnaryReplies(o *hx.Out) { truncatedUnaryRepliesTo(o, checked) }
+
+// request metadata: whatever way the caller attached it to its context (a metadata.MD, appended pairs, or
+// both), the handler's incoming metadata has every key with all its values in order, binary values intact
+func requestMetadata(o *hx.Out, r *hx.Rand) {
+	var seen metadata.MD
+	svc := &hx.Svc{
+		Unary: func(ctx context.Context, req *hx.Msg) (*hx.Msg, error) {
+			seen, _ = metadata.FromIncomingContext(ctx)
+			return &hx.Msg{}, nil
+		},
+		Stream: func(kind string, ss grpc.ServerStream) error {
+			seen, _ = metadata.FromIncomingContext(ss.Context())
+			return nil
+		},
+	}
+	binVals := []string{"QUJD", "", "plain", "\x00\x01\xff\xfe", "a b\n", "YQ==", "===="}
+	id := 0
+	for _, t := range bothTransports(svc) {
+		for _, how := range []string{"md", "append", "md+append", "append twice"} {
+			for _, stream := range []bool{false, true} {
+				base := metadata.MD{"k-plain": {"v1", "v 2"}, "k-bin": {binVals[r.Intn(len(binVals))], binVals[r.Intn(len(binVals))]}}
+				extra := []string{"x-bin", binVals[r.Intn(len(binVals))], "k-plain", "v3", "x-bin", binVals[r.Intn(len(binVals))], "y", "z"}
+				want := metadata.MD{}
+				ctx := context.Background()
+				if how == "md" || how == "md+append" {
+					ctx = metadata.NewOutgoingContext(ctx, base.Copy())
+					want = metadata.Join(want, base)
+				}
+				if how != "md" {
+					ctx = metadata.AppendToOutgoingContext(ctx, extra...)
+					want = metadata.Join(want, metadata.Pairs(extra...))
+				}
+				if how == "append twice" {
+					ctx = metadata.AppendToOutgoingContext(ctx, "k-bin", "\xff\x00tail", "y", "z2")
+					want = metadata.Join(want, metadata.Pairs("k-bin", "\xff\x00tail", "y", "z2"))
+				}
+				seen = nil
+				var err error
+				if stream {
+					err = streamWithCtx(t.ch, ctx)
+				} else {
+					err = t.ch.Invoke(ctx, "/verif.Svc/U", &hx.Msg{}, &hx.Msg{})
+				}
+				ok := err == nil && seen != nil
+				for k, vs := range want {
+					ok = ok && fmt.Sprintf("%q", seen[k]) == fmt.Sprintf("%q", vs)
+				}
+				id++
+				d := map[string]interface{}{"transport": t.name, "stream": stream, "attached_with": how, "sent": fmt.Sprintf("%q", want), "handler_saw": fmt.Sprintf("%q", seen), "error": fmt.Sprint(err)}
+				if !ok {
+					o.Violate("the handler did not see the caller's outgoing metadata as sent", d, fmt.Sprintf("%q", seen), fmt.Sprintf("%q", want))
+				}
+				checked(o, "request_metadata_"+t.name, id, ok, d)
+			}
+		}
+		t.stop()
+	}
+}
+
+func streamWithCtx(ch grpc.ClientConnInterface, ctx context.Context) error {
+	cs, err := ch.NewStream(ctx, hx.StreamDescOf("BD"), "/verif.Svc/BD")
+	if err != nil {
+		return err
+	}
+	defer runtime.KeepAlive(cs)
+	cs.CloseSend()
+	for {
+		if err := cs.RecvMsg(&hx.Msg{}); err != nil {
+			if err == io.EOF {
+				return nil
+			}
+			return err
+		}
+	}
+}
 
 // a response message that cannot be encoded: the handler ignores the failed send, sends more and returns
 // nil; the client must not be told the call succeeded unless it received every message
@@ -737,6 +831,7 @@ func init() {
 		runScripts(o, r, n, true)
 		runUnaryStatus(o, r, n/2)
 		runStreamStatus(o, r, n/2)
+		requestMetadata(o, r)
 		o.Finding = "finding_c03"
 		o.Shard = 60
 	}
